@@ -305,6 +305,74 @@ func runC04(w *World, r *Report) {
 			}
 			return true
 		})
+		if !nested {
+			// the same selection written with an if: `if e.Type == 0xffff { … VendorError … }`, or
+			// `if e.Type != 0xffff { …; break/return }` followed by the VendorError decode
+			pinfo := pfi.Pkg.TypesInfo
+			allocsVE := func(n ast.Node) bool {
+				f := false
+				ast.Inspect(n, func(m ast.Node) bool {
+					switch c := m.(type) {
+					case *ast.CallExpr:
+						if id, ok := c.Fun.(*ast.Ident); ok && id.Name == "new" && len(c.Args) == 1 {
+							if kk := w.KindOfType(pinfo.TypeOf(c.Args[0])); kk != nil && kk.Name == "openflow13.VendorError" {
+								f = true
+							}
+						}
+					case *ast.CompositeLit:
+						if kk := w.KindOfType(pinfo.TypeOf(c)); kk != nil && kk.Name == "openflow13.VendorError" {
+							f = true
+						}
+					}
+					return true
+				})
+				return f
+			}
+			ast.Inspect(pfi.Decl.Body, func(n ast.Node) bool {
+				blk, ok := n.(*ast.CaseClause)
+				var list []ast.Stmt
+				if ok {
+					list = blk.Body
+				} else if b, ok := n.(*ast.BlockStmt); ok {
+					list = b.List
+				} else {
+					return true
+				}
+				for i, st := range list {
+					is, ok := st.(*ast.IfStmt)
+					if !ok {
+						continue
+					}
+					be, ok := unparen(is.Cond).(*ast.BinaryExpr)
+					if !ok || (be.Op != token.EQL && be.Op != token.NEQ) {
+						continue
+					}
+					x, c := be.X, be.Y
+					if _, isC := constIntOf(pinfo, c); !isC {
+						x, c = be.Y, be.X
+					}
+					v, isC := constIntOf(pinfo, c)
+					se, isSel := unparen(x).(*ast.SelectorExpr)
+					if !isC || v != 0xffff || !isSel || se.Sel.Name != "Type" {
+						continue
+					}
+					if be.Op == token.EQL && allocsVE(is.Body) {
+						nested = true
+					}
+					if be.Op == token.NEQ && !allocsVE(is.Body) && len(is.Body.List) > 0 {
+						switch is.Body.List[len(is.Body.List)-1].(type) {
+						case *ast.BranchStmt, *ast.ReturnStmt:
+							for _, later := range list[i+1:] {
+								if allocsVE(later) {
+									nested = true
+								}
+							}
+						}
+					}
+				}
+				return true
+			})
+		}
 		if nested {
 			r.OK("dispatch", pfi.Key, "error:experimenter", w.Pos(pfi.Decl.Pos()), "error type 0xffff (OFPET_EXPERIMENTER) → openflow13.VendorError", true)
 		} else {
